@@ -175,6 +175,9 @@ type fileObs struct {
 	// from the file-system log
 	closed      bool
 	writesAfter int // writes logged after the close
+	// history step during which the file was created (-1: pre-roll macro,
+	// len(steps): while stopping, -2: unknown)
+	openStep int
 }
 
 type obs struct {
@@ -194,6 +197,8 @@ type obs struct {
 	ringOK       bool
 	ringEnd      [2][3]int
 	openAfterEnd int
+	// history step during which each logged file-system operation happened
+	fsStep []int
 }
 
 func parseRecName(n string) (string, int) {
@@ -219,7 +224,8 @@ func (e *env) run(st *stream, h *History) (o *obs) {
 	}
 	vtime.SetVirtual(true)
 	rtptime.VerifSetEpoch(vtime.Base.Add(-time.Hour))
-	vos.SetHook(func(vos.StepInfo) error { return nil })
+	curStep := -1
+	vos.SetHook(func(vos.StepInfo) error { o.fsStep = append(o.fsStep, curStep); return nil })
 	defer vos.SetHook(nil)
 
 	var dw *diskwriter.Client
@@ -311,7 +317,23 @@ func (e *env) run(st *stream, h *History) (o *obs) {
 		}
 	}
 
+	trace := func(si int) {
+		if os.Getenv("C20_TRACE") == "" {
+			return
+		}
+		for t := 0; t < 2; t++ {
+			if o.tracks[t] != nil {
+				or, ok, wr, loc, rem := diskwriter.VerifC20Origin(o.tracks[t].local)
+				fmt.Printf("    after step %d: %s origin=%d valid=%v writer=%v originLocal=%d originRemote=%x\n", si, tname(t), int32(or), ok, wr, loc, rem)
+			}
+		}
+	}
+	trace(-1)
 	for si, s := range h.Steps {
+		curStep = si
+		if si > 0 {
+			trace(si - 1)
+		}
 		switch s.K {
 		case "w":
 			write(s.P, si)
@@ -350,6 +372,7 @@ func (e *env) run(st *stream, h *History) (o *obs) {
 	now += 40 * time.Millisecond
 	vtime.Set(now)
 	o.endAt = now
+	curStep = len(h.Steps)
 	for _, t := range o.tracks {
 		if t != nil {
 			t.curStp = len(h.Steps)
@@ -411,11 +434,14 @@ func (e *env) snapshot(o *obs) {
 	log := vos.Log()
 	for _, f := range l {
 		data, _ := os.ReadFile(filepath.Join(e.recDir, f.name))
-		fo := fileObs{name: f.name, data: data}
+		fo := fileObs{name: f.name, data: data, openStep: -2}
 		suffix := "//" + f.name
 		for _, s := range log {
 			if !strings.HasSuffix(s.Path, suffix) {
 				continue
+			}
+			if fo.openStep == -2 && strings.Contains(s.Op, "openfile") && s.N-1 < len(o.fsStep) {
+				fo.openStep = o.fsStep[s.N-1]
 			}
 			switch s.Op {
 			case "close":
